@@ -2,7 +2,7 @@
    Statements only; proofs in Proofs/AfterCloseP.v (sequential writer), Proofs/SchedP.v (all interleavings) and
    Proofs/ReaderOneCloseP.v (closes triggered by the read side). *)
 From Coq Require Import List NArith ZArith Bool.
-From WS Require Import Base.Words Model.Mask Model.Frame Model.Proto Model.Writer Model.Reader Proofs.ReaderOneCloseP Proofs.AfterCloseP Model.Sched Proofs.SchedP.
+From WS Require Import Base.Words Model.Mask Model.Frame Model.Proto Model.Writer Model.Reader Proofs.ReaderOneCloseP Proofs.AfterCloseP Model.Sched Proofs.SchedP Gen.WriteCode Proofs.GenTieP.
 Import ListNotations.
 Open Scope N_scope.
 
@@ -53,3 +53,18 @@ Theorem C16_reader_only_pongs_around_close : forall cfg inflate lim stream e ops
   Forall (fun x => exists p, x = RpPong p) b /\ Forall (fun x => exists p, x = RpPong p) a /\ r_close_sent (snd r) = true.
 Proof. exact reader_only_pongs_after_close. Qed.
 Print Assumptions C16_reader_only_pongs_around_close.
+
+(* tie to the source by translation (Gen/WriteCode.v is regenerated from write.go writeFrame on every run): the model's
+   writer refuses a frame after the Close frame exactly when the source's errCloseSent check does, and sets the flag exactly
+   when the source does — the check comes before the setting, and there is no other assignment to the flag in writeFrame
+   (the translator refuses the source otherwise) *)
+Theorem C16_refusal_is_source : forall keys cfg s fin fl opc p,
+  write_frame keys cfg s fin fl opc p =
+  if gen_refused_after_close (w_close_sent s) (Z.of_N opc) then s else write_frame_raw keys cfg s fin fl opc p.
+Proof. exact write_frame_is_source. Qed.
+Print Assumptions C16_refusal_is_source.
+
+Theorem C16_flag_is_source : forall keys cfg s fin fl opc p,
+  w_close_sent (write_frame_raw keys cfg s fin fl opc p) = w_close_sent s || gen_sets_close_sent (Z.of_N opc).
+Proof. intros. apply (write_frame_raw_is_source keys cfg s fin fl opc p). Qed.
+Print Assumptions C16_flag_is_source.
